@@ -18,6 +18,9 @@ func (o *Obligation) buildQuery(withModel bool) string {
 	roots = append(roots, o.PC...)
 	roots = append(roots, o.Axioms...)
 	roots = append(roots, o.Goal)
+	if withModel {
+		roots = append(roots, x.replayTerms...)
+	}
 	// collect symbols, sorts, constructors
 	usedConst := map[string]bool{}
 	usedFun := map[string]bool{}
@@ -143,7 +146,17 @@ func (o *Obligation) buildQuery(withModel bool) string {
 	for _, a := range asserts {
 		sb.WriteString(a + "\n")
 	}
+	if withModel && len(x.replayTerms) > 0 && o.smallModel {
+		fmt.Fprintf(&sb, "(assert (<= %s %d))\n", x.replayTerms[0].String(), replayTextMax)
+	}
 	sb.WriteString("(check-sat)\n")
+	if withModel && len(x.replayTerms) > 0 {
+		var ts []string
+		for _, t := range x.replayTerms {
+			ts = append(ts, t.String())
+		}
+		fmt.Fprintf(&sb, "(echo \"replaytext-begin\")\n(get-value (%s))\n(echo \"replaytext-end\")\n", strings.Join(ts, " "))
+	}
 	if withModel {
 		var names []string
 		for _, in := range x.inputs {
@@ -158,6 +171,8 @@ func (o *Obligation) buildQuery(withModel bool) string {
 	}
 	return sb.String()
 }
+
+const replayTextMax = 48
 
 type solverSpec struct {
 	name string
@@ -317,9 +332,16 @@ func solveOne(o *Obligation, opts SolveOpts) {
 		// fetch a model from the solver that said sat
 		for _, sp := range solvers {
 			if sp.name == o.Solver {
+				o.smallModel = true
 				qm := o.buildQuery(true)
-				_, out, s := runSolver(sp, qm, opts.SlowT)
+				a, out, s := runSolver(sp, qm, opts.SlowT)
 				o.Time += s
+				if a != "sat" {
+					o.smallModel = false
+					qm = o.buildQuery(true)
+					_, out, s = runSolver(sp, qm, opts.SlowT)
+					o.Time += s
+				}
 				o.Model = out
 			}
 		}
